@@ -258,6 +258,14 @@ def run(chk):
         chk.ob("R2.decoder", DEC, "marker 127 -> u64::from_be_bytes of 8 bytes", facts.get(127, ("",))[0] == "u64" and facts[127][1] == "from_be_bytes" and "; 8]" in facts[127][2],
                f"marker 127 handled as {facts.get(127)}")
         exact_reads(chk, prog, "R3.reads")
+        # "decode under any split" holds for the non-blocking reader too: the count of its bare read() of the header is used (a header that
+        # arrives 1 + 1 is completed, not parsed from a half-filled buffer) — C03's PARTIALREAD rule on that reader
+        from . import c03 as _c03
+        _bodies = panics.reach(prog, ["humphrey_ws::frame::Frame::from_stream_nonblocking"])
+        _before = len(chk.obligations)
+        _c03.partial_read_rule(chk, prog, "A", _bodies)
+        for _o in chk.obligations[_before:]:
+            _o["rule"] = "R3.partial_read"
         # unmasking: key[i % 4]
         # (closure passed to for_each, or a `for` loop in the decoder itself)
         cl = [c for c in [b] + prog.closures_of(DEC) if c is not None and any(blk["term"] and blk["term"]["k"] == "assert" and blk["term"]["akind"] == "rem_zero" for blk in c.blocks)]
